@@ -11,6 +11,7 @@ mod bits_replay;
 mod symbol_replay;
 mod chain;
 mod drive;
+mod selftest;
 mod drive_models;
 mod ans_bounded;
 mod ans_seek;
@@ -38,6 +39,8 @@ fn main() {
             let precs: Vec<usize> = optc::<String>(&argv, "--precs").unwrap().split(',').map(|x| x.parse().unwrap()).collect();
             drive::drive_ans(w, s, &precs, seed, n as usize, &optc::<String>(&argv, "--trace").unwrap())
         }
+        "drive_huffman" => symbol_replay::drive_huffman(seed, &optc::<String>(&argv, "--trace").unwrap()),
+        "selftest_tiny" => selftest::selftest_tiny(),
         "drive_models" => drive_models::drive_models(seed, n as usize, &optc::<String>(&argv, "--trace").unwrap()),
         "drive_range" => {
             let w: u32 = optc(&argv, "--w").unwrap(); let s: u32 = optc(&argv, "--s").unwrap();
